@@ -315,6 +315,9 @@ type FileSpec struct {
 	// sysfs entry (regular file, size 0, content nevertheless), a file that grew
 	// after it was stat-ed, a stale fs.File size. 0: the accurate size.
 	StatSize int
+	// Fifo: a named pipe - not a regular file (Stat says so), no size, no Seek, no
+	// ReadAt; bytes arrive as the delivery schedule says (short reads are the rule).
+	Fifo bool
 }
 
 // FS is the simulated file table. It is written only between runs (by the
